@@ -410,3 +410,22 @@ Proof.
   rewrite count_occ_nodup by (apply ip_gen_nodup; [assumption|lia]).
   unfold is_host at 2. destruct (existsb _ _); reflexivity.
 Qed.
+
+(* ---- registered devices: skipped by the workers, counted by the estimate ---- *)
+Lemma filter_split_length {A} (p : A -> bool) (l : list A) :
+  length l = (length (filter p l) + length (filter (fun x => negb (p x)) l))%nat.
+Proof.
+  induction l as [|x l IH]; [reflexivity|]. cbn [filter]. destruct (p x); cbn [negb length]; lia.
+Qed.
+
+Theorem estimate_counts_registered : forall reg nets, Forall net_ok nets ->
+  (N.of_nat (length (probed reg nets)) + N.of_nat (length (skipped reg nets)) = estimate nets)%N /\
+  (forall x, In x (probed reg nets) <-> In x (discover_all nets) /\ reg x = false).
+Proof.
+  intros reg nets H. split.
+  - rewrite <- (estimate_all nets H). unfold probed, skipped.
+    rewrite (filter_split_length reg (discover_all nets)). lia.
+  - intros x. unfold probed. rewrite filter_In. split; intros [A B]; split; try assumption.
+    + now apply negb_true_iff in B.
+    + now apply negb_true_iff.
+Qed.
